@@ -268,6 +268,8 @@ class CSemantics:
         """Handle array designator."""
         # TODO: Handle things like [4..30] = 23
         # Calculate position:
+        self.ensure_integer(index)
+        self.ensure_constant(index, "Array designator")
         pos = self.eval_expr(index)
 
         # Array index must be positive:
